@@ -374,19 +374,40 @@ def check_pop_stack(ctx: Ctx, f: FuncInfo) -> None:
             ctx.violation("C12-R1", f, ifs[0], f"the stack is emptied when `{t}`; a pop-stack must be emptied exactly when the next entry is larger than the top (`{stack} and {x} > {top}`)")
             return
         raise AnalysisError(f"{f.where}: pop condition `{t}` not recognised")
+    top_first = [f"{out}.extend({stack})"] if top.endswith("[0]") else [f"{out}.extend(reversed({stack}))", f"{out}.extend({stack}[::-1])"]
+    bottom_first = [f"{out}.extend(reversed({stack}))", f"{out}.extend({stack}[::-1])"] if top.endswith("[0]") else [f"{out}.extend({stack})"]
+    emptied = {f"{stack}.clear()", f"{stack} = []", f"{stack} = collections.deque()", f"{stack} = deque()", f"del {stack}[:]"}
+
+    def flush_verdict(stmts: List[str]) -> str:
+        """'ok': the whole stack goes to the output top first; 'wrong': positively something else; 'unknown'"""
+        if stmts[:1] and stmts[0] in top_first:
+            return "ok"
+        if stmts[:1] and stmts[0] in bottom_first:
+            return "wrong"  # bottom of the stack leaves first
+        if not any(out in st for st in stmts):
+            return "wrong"  # nothing reaches the output
+        return "unknown"
+
     popped = [unparse(s) for s in ifs[0].body]
-    order_ok = popped == [f"{out}.extend({stack})", f"{stack}.clear()"] if top.endswith("[0]") else popped == [f"{out}.extend(reversed({stack}))", f"{stack}.clear()"]
-    if not order_ok:
+    v = flush_verdict(popped)
+    if v == "ok" and len(popped) == 2 and popped[1] in emptied:
+        pass
+    elif v == "wrong" or (v == "ok" and len(popped) == 1):
         ctx.violation("C12-R1", f, ifs[0], f"popping does `{'; '.join(popped)}`; the whole stack must go to the output, top first, and the stack must be emptied")
         return
+    else:
+        raise AnalysisError(f"{f.where}: what happens when the stack is popped (`{'; '.join(popped)[:80]}`) is not recognised")
     if ifs[0] is not lp.body[0] or len(lp.body) != 2:
         raise AnalysisError(f"{f.where}: loop body shape")
     after = [unparse(s) for s in body[body.index(lp) + 1:]]
-    final = f"{out}.extend({stack})" if top.endswith("[0]") else f"{out}.extend(reversed({stack}))"
-    if after[:1] == [final] and after[-1] in (f"return Perm({out})", f"return Perm(tuple({out}))"):
+    v = flush_verdict(after)
+    returned = bool(after) and after[-1] in (f"return Perm({out})", f"return Perm(tuple({out}))")
+    if v == "ok" and returned:
         ctx.ok("C12-R1", f.where, "pop-stack pass: push while smaller than the top, else empty the stack top-first; flush at the end", lp, f)
-    else:
+    elif v == "wrong" or (returned and len(after) == 1):
         ctx.violation("C12-R1", f, body[-1], f"after the input is read the function does `{'; '.join(after)}`; the remaining stack must be flushed top first and the output returned")
+    else:
+        raise AnalysisError(f"{f.where}: what happens after the input is read (`{'; '.join(after)[:80]}`) is not recognised")
 
 
 _OLD_RUN = run
